@@ -544,6 +544,37 @@ def _conc_to_utc(ctx, kind):
     ctx.observe("kind", 1.0)
 
 
+def case_datetime64_arrays(ctx):
+    """concrete run on the real library objects (no symbolic input): numpy arrays, lists and scalars of datetime64 in
+    every unit (D, h, m, s, ms, us, ns), DataArrays and pandas Series denote the same UTC instant after
+    to_datetime_utc / to_datetime64; the contract model of the symbolic cases has no unit-bearing ndarray"""
+    if ctx.mode == "sym":
+        ctx.check(True, "D-GLUE.d64.units", info="executed in the concrete run only")
+        return
+    import datetime as dt
+    import pandas as pd
+    import xarray
+    import ocean_science_utilities.tools.time as T
+    inst = dt.datetime(2022, 11, 9, 0, 0, 0, tzinfo=dt.timezone.utc)
+    bad = []
+    for unit in ("D", "h", "m", "s", "ms", "us", "ns"):
+        base = np.datetime64("2022-11-09T00:00:00", unit)
+        for nm, obj in (("ndarray", np.array([base, base])), ("list", [base, base]), ("scalar", base),
+                        ("DataArray", xarray.DataArray(np.array([base, base]))), ("Series", pd.Series(np.array([base, base])))):
+            try:
+                out = T.to_datetime_utc(obj)
+                outs = out if isinstance(out, (list, tuple, np.ndarray)) else [out]
+                if not all(o == inst and o.utcoffset() == dt.timedelta(0) for o in outs):
+                    bad.append((unit, nm, str(outs[0])))
+                o64 = T.to_datetime64(obj)
+                o64s = np.atleast_1d(o64)
+                if not all(x == np.datetime64("2022-11-09T00:00:00", "ns") for x in o64s):
+                    bad.append((unit, nm, "to_datetime64", str(o64s[0])))
+            except Exception as ex:  # noqa
+                bad.append((unit, nm, repr(ex)[:80]))
+    ctx.check(not bad, "D-GLUE.d64.units", info=dict(failing=bad[:4]))
+
+
 def cases(tier):
     cs = []
 
@@ -560,6 +591,7 @@ def cases(tier):
         add("case_to_utc", f"to_utc_{k}", kind=k)
     add("case_sequence", "seq_mixed_list", kinds=["aware", "isoZ", "epoch_int"], container="list")
     add("case_sequence", "seq_mixed_tuple", kinds=["naive", "datetime64"], container="tuple")
+    add("case_datetime64_arrays", "datetime64_units_witness", opts=dict(concrete_float=True, label="D-GLUE.d64.units"))
     if tier != "quick":
         add("case_sequence", "seq_mixed4", kinds=["iso_offset", "utc", "iso_naive", "datetime64"], container="list")
     return cs
